@@ -1,6 +1,7 @@
 package main
 
 import (
+	"bytes"
 	"strconv"
 	"strings"
 
@@ -114,6 +115,18 @@ func c03One(c *core.Ctx, cs srcCase) {
 		return
 	}
 	vocabCheck(c, cs, res.Root)
+	// every byte of an accepted program sits in exactly one token of the tree (a token that is in no slot is a role PHP
+	// prescribes and the tree does not have: a by-reference mark, a modifier, a separator). Heredocs are left to C02/C04
+	// (the test-pinned defect of the empty 7.3+ heredoc loses a byte).
+	if !bytes.Contains(cs.Src, []byte("<<<")) {
+		n := 0
+		for _, tr := range astx.Tokens(res.Root) {
+			n += len(tr.Tok.Value)
+		}
+		if n != len(cs.Src) {
+			c.Report("accepted program: the tokens of the tree do not add up to the source ("+fam+", "+cs.Why+")", mkWhat("%d of %d bytes in %q", n, len(cs.Src), cs.Src), cs)
+		}
+	}
 	switch {
 	case strings.HasPrefix(cs.Aux, "sx:"):
 		want := cs.Aux[3:]
